@@ -17,7 +17,7 @@ Expected(b) ==         \* the one observation the Ref allows
     IF WellFormedSof(b)
     THEN LET f == FrameOf(b) IN
          [bytes |-> b, nf |-> IF f # frame THEN 1 ELSE 0, sd |-> 1, frame |-> f,
-          micro |-> IF f # frame THEN 0 ELSE micro + 1]
+          micro |-> IF f # frame THEN 0 ELSE (micro + 1) % 8]
     ELSE [bytes |-> b, nf |-> 0, sd |-> 0, frame |-> frame, micro |-> micro]
 
 Do(b) == LET e == Expected(b) IN Legal(e) /\ Failing(e) = "ok" /\ Step(e)
